@@ -14,6 +14,7 @@ CSTATE = "rt::mpsc::State"
 
 
 def Q1(ctx):
+    """Writers of the channel message counter: 0 at creation, checked_add(1) in send, checked_sub(1) in recv."""
     prog = ctx.prog
     n = 0
     allowed = {"rt::mpsc::Channel::new": None, "rt::mpsc::Channel::send": "checked_add", "rt::mpsc::Channel::recv": "checked_sub"}
@@ -66,6 +67,7 @@ def Q2(ctx):
 
 
 def Q4(ctx):
+    """Dropping the Receiver drains the channel with recv() while !is_empty() (live execution)."""
     prog = ctx.prog
     fk = "<sync::mpsc::Receiver<T> as std::ops::Drop>::drop"
     fn = need_fn(ctx, "Q4", fk)
